@@ -200,8 +200,8 @@ macro_rules! Header {
                 self.get(name)
             }
             pub fn get(&self, name: &str) -> Option<&str> {
-                let value = self.custom.as_ref()?
-                    .get(&Slice::from_bytes(name.as_bytes()))
+                let value = self.custom.as_ref()
+                    .and_then(|custom| custom.get(&Slice::from_bytes(name.as_bytes())))
                     .or_else(|| {
                         let standard = Header::from_bytes(name.as_bytes())?;
                         unsafe {self.standard.get(standard as usize)}
